@@ -10,12 +10,21 @@
 #ifndef VP_M
 #define VP_M 2
 #endif
+#ifndef VP_NB
+#define VP_NB 4
+#endif
+#ifndef VP_NL
+#define VP_NL 3
+#endif
+#ifndef VP_L0
+#define VP_L0 1
+#endif
 using Gudhi::Persistence_representations::Persistence_landscape; using Gudhi::Persistence_representations::Persistence_landscape_on_grid;
 enum { M = VP_M, NT = 4 * 4 * 2 + 1 };   // evaluation points t = -? .. : quarters of [0,8]... we use [0,5] below
 struct Diag { double b[M], d[M]; };
 static double tent(double b, double d, double t) { double x = t - b < d - t ? t - b : d - t; return x > 0 ? x : 0.0; }
 static double lam(const Diag& D, int k, double t) { double v[M]; for (int i = 0; i < M; i++) v[i] = tent(D.b[i], D.d[i], t); for (int i = 0; i < M; i++) for (int j = 0; j + 1 < M - i; j++) if (v[j] < v[j + 1]) { double q = v[j]; v[j] = v[j + 1]; v[j + 1] = q; } return k < M ? v[k] : 0.0; }
-static void pick(Diag& D, std::vector<std::pair<double, double> >& v, const char* nb, const char* nl) { for (int i = 0; i < M; i++) { D.b[i] = vp_double_grid_forked(nb, 0.0, 1.0, 4); double l = vp_double_grid_forked(nl, 1.0, 1.0, 3); D.d[i] = D.b[i] + l; if (i) vp_assume(D.b[i - 1] < D.b[i] || (D.b[i - 1] == D.b[i] && D.d[i - 1] <= D.d[i])); v.push_back({D.b[i], D.d[i]}); } }
+static void pick(Diag& D, std::vector<std::pair<double, double> >& v, const char* nb, const char* nl) { for (int i = 0; i < M; i++) { D.b[i] = vp_double_grid_forked(nb, 0.0, 1.0, VP_NB); double l = vp_double_grid_forked(nl, (double)VP_L0, 1.0, VP_NL); D.d[i] = D.b[i] + l; if (i) vp_assume(D.b[i - 1] < D.b[i] || (D.b[i - 1] == D.b[i] && D.d[i - 1] <= D.d[i])); v.push_back({D.b[i], D.d[i]}); } }
 static bool close(double x, double y) { return std::fabs(x - y) <= 1e-9 * (1 + std::fabs(y)); }
 // exact integral over [0,7] of a function that is quadratic on every half-integer cell: Simpson with quarter-point midpoints
 template <class F> static double simpson(F f) { double s = 0; for (int c = 0; c < 14; c++) { double a = c * 0.5, m = a + 0.25, b = a + 0.5; s += (f(a) + 4 * f(m) + f(b)) * 0.5; } return s / 6.0; }
